@@ -15,7 +15,8 @@ MANIFEST = {
             "request size, unbounded: WriteOrThrow/ErsatzPWrite accept a prefix of the data in order and succeed iff all "
             "of it was accepted; ReadOrThrow/ErsatzPRead return exactly the next n bytes or throw; ReadOrEOF returns a "
             "prefix ended by a zero return; a consumed errno answer always throws that errno; offsets advance by the "
-            "partial counts; EINTR and arbitrary splitting give the ideal-OS result; every loop terminates with fuel = "
+            "partial counts; EINTR and arbitrary splitting give the ideal-OS result, and inserting an EINTR into any finished run "
+            "changes neither bytes nor result (except WriteOrThrow's errno 0 -> 4 before a zero return, as the real code does); every loop terminates with fuel = "
             "bytes + EINTR budget; FileStream hands the OS exactly the concatenation of its << arguments for every "
             "buffer size (a prefix of it if it throws) and never overflows its buffer.  PARTIAL: that every call site "
             "of lmplz/build_binary/filter/interpolate uses these primitives and lets the exception end the process "
@@ -35,7 +36,7 @@ MANIFEST = {
 REQUIRED = ["KV.C15.write_all_or_throw", "KV.C15.read_exact_or_throw", "KV.C15.read_or_eof",
             "KV.C15.pread_pwrite_same", "KV.C15.eintr_transparent", "KV.C15.loops_terminate",
             "KV.C15.stream_no_loss", "KV.C15.stream_bounded", "KV.C15.inplace_reservations_fit",
-            "KV.C15.partial_read", "KV.C15.eintr_value", "KV.C15.fuel_irrelevant"]
+            "KV.C15.partial_read", "KV.C15.eintr_value", "KV.C15.fuel_irrelevant", "KV.C15.eintr_insertion"]
 
 KNOWN_SYNC = "sync-fault-at-or-after-header-write"
 KNOWN_HANG = "lmplz-hangs-on-tempfile-setup-failure"
